@@ -154,6 +154,14 @@ theorem healthy_run_status_zero (P : Params) (hc : CodecOk P.codec) (hB0 : 0 < P
     simp
   · rw [hr] at h; cases h
 
+/-- `healthy_run_status_zero` applied to the example instance (non-vacuity: the run succeeds) -/
+example : ∃ s, runProc (serial exP) 3 exFiles = .ok s ∧ s.pool.ser.status = 0 ∧ (poolStatus (serial exP) s.pool).2 = 0 := by
+  cases h : runProc (serial exP) 3 exFiles with
+  | error e =>
+    have : (runProc (serial exP) 3 exFiles).toOption.isSome = true := by decide +kernel
+    rw [h] at this; cases this
+  | ok s => exact ⟨s, rfl, healthy_run_status_zero exP exCodec_ok exP_side.1 exP_side.2.1 3 exFiles s h⟩
+
 /-! ### `specPack` (DESIGN.md Appendix B, `Spec/PackSpec.lean`: the specification C17's directive theorems and the
 read-back theorem are stated against)
 
@@ -580,7 +588,8 @@ example :
   exact ⟨by decide, by decide,
     failed_item_back_status_nonzero (Sqfs.C09.run_reachable cfg 2 sched) 0 (by decide) 0 (by decide) (by decide)⟩
 
-/-- non-vacuity of `failure_deterministic_partial`: the witness instance (five blocks, the compressor fails on the first),
+/-- non-vacuity of `failure_deterministic_partial` and of `failure_backlog_independent` (whose hypotheses are these for `mb₁ = 3`,
+`mb₂ = 40`; the conclusion on this instance is also `Sqfs.Witness.C02.failure_reported_current`): the witness instance (five blocks, the compressor fails on the first),
 `max_backlog` 3 and 40 — the healthy run succeeds, its first callback invocation is on the marked block -/
 example :
     let R := fun mb => runProc (declined { B := 4, codec := Sqfs.ToyCodec.codec 4, h := fun _ => 0 } Sqfs.Witness.C02.marked) mb
